@@ -10,6 +10,8 @@ import numpy
 from ECAgent.Core import Agent, Component, Environment, Model
 from ECAgent.Environments import PositionComponent, SpaceWorld
 
+from simkit.stepgate import StepGate
+
 PROPERTY = "C13"
 QUICK_RUNS = 20000
 CHUNK = 250
@@ -20,12 +22,12 @@ RULE = ("0-8 agents with arbitrary subsets of 4 component types and tags from {d
         "perturbation in between; non-trivial = a template of >=2 types that some agents match only partly, a tag-0 "
         "filter excluding >=1 agent and a candidate set >=2; distinct = sequence of (op, template size, tag, |answer|, "
         "|population|)"
-        "; also: tags reassigned while resident, a component type that subclasses another, model lifecycle ops, agents that are environments themselves (empty or inhabited)")
+        "; also: tags reassigned while resident, a component type that subclasses another, model lifecycle ops, agents that are environments themselves (empty or inhabited), stretches of the history issued from inside a running timestep")
 COMPONENTS = {"real": ["ECAgent.Core.Environment.get_agents / get_random_agent / shuffle / add_agent / remove_agent",
                        "Agent.has_component", "Model.random", "SpaceWorld (some runs)"],
               "stub": ["component classes and agents are harness-defined; global random / numpy.random are perturbed"]}
 PROBES = ["tag_zero_filter", "template_and_tag", "nobody_matches", "partial_template_match", "returned_list_mutated",
-          "reach_all_members", "same_seed_repeat", "type_nobody_has", "spatial_world", "default_tag_agent", "retag_while_resident", "model_lifecycle_op", "subclass_component_only", "agent_is_an_environment"]
+          "reach_all_members", "same_seed_repeat", "type_nobody_has", "spatial_world", "default_tag_agent", "retag_while_resident", "model_lifecycle_op", "subclass_component_only", "agent_is_an_environment", "ops_from_inside_a_timestep"]
 TECHNIQUE = "deterministic simulation: filter queries inside seeded add/remove histories vs a list-comprehension reference; bounded reachability over reseeded model generators; ambient RNG perturbation between picks"
 LEVEL_TEXT = ("Seeded search over populations, histories, templates and tag filters; every listing must equal the reference filter "
               "(identity, joining order, fresh list), every pick must be a member, every shuffle a permutation, nothing may "
@@ -101,6 +103,12 @@ def generate(rng, tier):
                 op["seed"] = rng.randint(0, 10 ** 6)
                 op["ambient"] = rng.choice(["none", "reseed", "consume", "np"])
             ops.append(op)
+    if rng.random() < 0.25 and len(ops) >= 2:
+        # a stretch of the history is issued from inside a running timestep (by a System, as far as the package can tell)
+        i_ = rng.randint(0, len(ops) - 1)
+        j_ = rng.randint(i_ + 1, len(ops))
+        ops.insert(j_, {"op": "leave_step"})
+        ops.insert(i_, {"op": "enter_step"})
     out = {"pool": pool, "ops": ops, "seed": rng.randint(0, 10 ** 6), "world": rng.choice(["plain", "plain", "plain", "space"])}
     if rng.random() < 0.3:      # some agents are environments themselves (empty - hence falsy - or inhabited)
         for p_ in pool:
@@ -160,8 +168,17 @@ def execute(sc, ctx):
         return len(got) == len(want) and all(x is y for x, y in zip(got, want))
 
     last_lists = []
+    gate = StepGate(ctx)
     for op in sc["ops"]:
         kind = op["op"]
+        if kind == "enter_step":
+            gate.enter(m)
+            continue
+        if kind == "leave_step":
+            gate.leave()
+            continue
+        if kind == "lifecycle" and ctx.in_step and op.get("what") == "step":
+            continue          # stepping the model from inside its own timestep is re-entrant stepping: outside the statements
         before = list(residents)
         if kind == "add":
             spec = pool[op["k"] % len(pool)]
@@ -302,5 +319,6 @@ def execute(sc, ctx):
                   lambda: f"{kind}: environment {[a.id for a in now]} was {[a.id for a in before]}")
         shape.append([kind, len(tmpl), tag, len(want), len(residents)])
         ctx.state([len(residents), kind, len(tmpl), str(tag), len(want)])
+    gate.leave()
     ctx.nontrivial = flags["partial"] and flags["tag0"] and flags["cand2"]
     ctx.sig = shape
